@@ -175,6 +175,11 @@ pub(crate) struct IoLoop {
     // established connection and are handled first thing there.
     early_frames: Vec<AMQPFrame>,
 
+    // The end of the stream (or a read error) met in the same read as OpenOk and whatever
+    // followed it: it belongs to the established connection, and is looked at once the
+    // frames parked in early_frames have been.
+    early_read_error: Option<Error>,
+
     // Bound for buffered outgoing writes. If we have more than this much data enqueued,
     // we will stop polling non-0 channels' requests for us to send more data.
     buffered_writes_high_water: usize,
@@ -199,6 +204,7 @@ impl IoLoop {
             frame_buffer: FrameBuffer::new(),
             inner: Inner::new(heartbeats, tuning.mem_channel_bound),
             early_frames: Vec::new(),
+            early_read_error: None,
             buffered_writes_high_water: tuning.buffered_writes_high_water,
             buffered_writes_low_water: tuning.buffered_writes_low_water,
             connection_timeout: None,
@@ -429,7 +435,7 @@ impl IoLoop {
                 }
                 if event.readiness().is_readable() {
                     let early_frames = &mut self.early_frames;
-                    self.inner.read_from_stream(
+                    let result = self.inner.read_from_stream(
                         stream,
                         &mut self.frame_buffer,
                         |inner, frame| match state {
@@ -439,7 +445,19 @@ impl IoLoop {
                             }
                             _ => state.process(inner, frame),
                         },
-                    )?;
+                    );
+                    match result {
+                        // the handshake is complete; what the frames behind OpenOk mean (the
+                        // server may have closed the connection and said why) is decided
+                        // before the end of the stream is
+                        Err(err @ Error::UnexpectedSocketClose)
+                        | Err(err @ Error::IoErrorReadingSocket { .. })
+                            if matches!(state, HandshakeState::Done(_, _)) =>
+                        {
+                            self.early_read_error = Some(err);
+                        }
+                        other => other?,
+                    }
                 }
             }
             HEARTBEAT => self.inner.process_heartbeat_timers()?,
@@ -476,13 +494,16 @@ impl IoLoop {
         for frame in std::mem::take(&mut self.early_frames) {
             state.process(&mut self.inner, frame)?;
         }
-        let result = self.run_io_loop(
-            stream,
-            &mut state,
-            Self::handle_steady_event,
-            true,
-            Self::is_connection_done,
-        );
+        let result = match self.early_read_error.take() {
+            Some(err) => Err(err),
+            None => self.run_io_loop(
+                stream,
+                &mut state,
+                Self::handle_steady_event,
+                true,
+                Self::is_connection_done,
+            ),
+        };
         // Once the server has sent Connection.Close, that is why the connection ended -
         // whatever happens while we try to get our CloseOk out (the server may reset the
         // socket or stop reading without waiting for it).
